@@ -47,6 +47,9 @@ pub enum RepKind {
     Const,
     NoExpand,
     Template,
+    /// two more `$`-templates: callers of one regex family with different templates in flight
+    TemplateB,
+    TemplateC,
     /// closure that searches with the same regex while the replace is in progress
     Reentrant,
 }
@@ -328,6 +331,8 @@ fn exec_op_inner(re: &Regex, text: &str, op: &Op) -> String {
                 RepKind::Const => re.try_replacen(text, *n, |_: &Captures<'_>| "X".to_string()),
                 RepKind::NoExpand => re.try_replacen(text, *n, NoExpand("$0!")),
                 RepKind::Template => re.try_replacen(text, *n, "<${0}>"),
+                RepKind::TemplateB => re.try_replacen(text, *n, "[$0|$1]"),
+                RepKind::TemplateC => re.try_replacen(text, *n, "$1-${0}$$"),
                 RepKind::Reentrant => re.try_replacen(text, *n, |c: &Captures<'_>| {
                     // re-entrant use of the same regex on the same thread, mid-replace
                     let inner = match re.find(&c[0]) {
@@ -628,7 +633,7 @@ fn gen_scenario(rng: &mut Rng, max_threads: usize) -> Option<Scenario> {
                 10 => OpKind::SplitN(rng.below(4)),
                 11 | 12 => OpKind::Replace(
                     rng.below(3),
-                    rng.pick(&[RepKind::Identity, RepKind::Const, RepKind::NoExpand, RepKind::Template, RepKind::Reentrant]).clone(),
+                    rng.pick(&[RepKind::Identity, RepKind::Const, RepKind::NoExpand, RepKind::Template, RepKind::TemplateB, RepKind::TemplateC, RepKind::Reentrant]).clone(),
                 ),
                 13 => OpKind::CloneAndFind,
                 14 => OpKind::CapturesOutliveRegex,
@@ -755,6 +760,8 @@ fn op_from_json(v: &Value) -> Option<Op> {
                 "Const" => RepKind::Const,
                 "NoExpand" => RepKind::NoExpand,
                 "Template" => RepKind::Template,
+                "TemplateB" => RepKind::TemplateB,
+                "TemplateC" => RepKind::TemplateC,
                 "Reentrant" => RepKind::Reentrant,
                 _ => return None,
             },
